@@ -12,7 +12,7 @@ CONSTANTS
   Dynamic = FALSE
   MaxNodes = 0
 VIEW View
-INVARIANT TouchedInside
+PROPERTY TouchedInside
 INVARIANT CwdInside
 INVARIANT CwdPlain
 PROPERTY FailNoEffect
